@@ -523,7 +523,11 @@ ASTNode *StatementParser::parseTypedefTypeStatement(
     if (is_function) {
         // v0.11.0: 型パラメータを事前にスタックにプッシュ
         // これにより、戻り値型に型パラメータ（例: Box<T>）を使用できる
-        if (has_lookahead_type_params && !lookahead_type_params.empty()) {
+        // pushed only for a non-empty list (`f<>` pushes nothing): every pop below
+        // must be conditional on this, not on the look-ahead having seen '<'
+        const bool pushed_lookahead_type_params =
+            has_lookahead_type_params && !lookahead_type_params.empty();
+        if (pushed_lookahead_type_params) {
             parser_->type_parameter_stack_.push_back(lookahead_type_params);
         }
 
@@ -562,7 +566,7 @@ ASTNode *StatementParser::parseTypedefTypeStatement(
                 if (!parser_->check(TokenType::TOK_IDENTIFIER)) {
                     parser_->error("Expected type parameter name after '<'");
                     // スタックのクリーンアップ
-                    if (has_lookahead_type_params) {
+                    if (pushed_lookahead_type_params) {
                         parser_->type_parameter_stack_.pop_back();
                     }
                     return nullptr;
@@ -582,7 +586,7 @@ ASTNode *StatementParser::parseTypedefTypeStatement(
                         if (!parser_->check(TokenType::TOK_IDENTIFIER)) {
                             parser_->error("Expected interface name after ':' "
                                            "or '+' in type parameter bound");
-                            if (has_lookahead_type_params) {
+                            if (pushed_lookahead_type_params) {
                                 parser_->type_parameter_stack_.pop_back();
                             }
                             return nullptr;
@@ -612,7 +616,7 @@ ASTNode *StatementParser::parseTypedefTypeStatement(
             if (!parser_->check(TokenType::TOK_GT)) {
                 parser_->error("Expected '>' after type parameters");
                 // スタックのクリーンアップ
-                if (has_lookahead_type_params) {
+                if (pushed_lookahead_type_params) {
                     parser_->type_parameter_stack_.pop_back();
                 }
                 return nullptr;
@@ -620,14 +624,14 @@ ASTNode *StatementParser::parseTypedefTypeStatement(
             parser_->advance(); // '>' を消費
 
             // 先読みでプッシュしたスタックを、実際にパースした型パラメータで更新
-            if (has_lookahead_type_params) {
+            if (pushed_lookahead_type_params) {
                 parser_->type_parameter_stack_.pop_back();
                 parser_->type_parameter_stack_.push_back(type_parameters);
             } else {
                 // 先読みで検出できなかった場合（通常の非ジェネリック戻り値型）
                 parser_->type_parameter_stack_.push_back(type_parameters);
             }
-        } else if (has_lookahead_type_params) {
+        } else if (pushed_lookahead_type_params) {
             // 先読みで検出したが実際にはなかった場合（エラー状態）
             // スタックをクリーンアップ
             parser_->type_parameter_stack_.pop_back();
